@@ -366,10 +366,12 @@ theorem parseRequiredH_fail_owned (S : Schema) (σ : Nat → Bool) (fuel : Nat) 
       rw [hft] at hw2
       simp [hft, hw2] at hfail
 
-/-- the schemas of this part: no embedded messages, no oneofs -/
+/-- the schemas of this part: no embedded messages; oneof members are singular; field numbers distinct and in range -/
 structure FlatS (fields : List FieldDesc) : Prop where
   nomsg : ∀ f ∈ fields, f.type ≠ .message
-  nogrp : ∀ f ∈ fields, f.group = none
+  oneof : ∀ f ∈ fields, f.group.isSome = true → f.label ≠ .repeated ∧ f.label ≠ .required
+  ids : ∀ f ∈ fields, 0 < f.id ∧ f.id < 2 ^ 31
+  distinct : Pbc.Props.C01.IdsDistinct fields
 
 /-- per-slot well-formedness of the message under construction: singular members own memory the way their type's code
     path releases it; elements of repeated (scalar) fields own nothing -/
@@ -377,9 +379,16 @@ def SlotsOk (S : Schema) (fields : List FieldDesc) (slots : List HSlot) : Prop :
   slots.length = fields.length ∧
   ∀ i, i < fields.length →
     match hgetSlot slots i with
-    | .one _ v => (fields.getD i default).label ≠ .repeated ∧ OwnOk S (fields.getD i default) v
+    | .one q v => (fields.getD i default).label ≠ .repeated ∧
+        (if ((fields.getD i default).isOneof && (fields.getD i default).id != q) = true then ownedVal S v = []
+         else OwnOk S (fields.getD i default) v)
     | .rep _ none => (fields.getD i default).label = .repeated
     | .rep _ (some _) => (fields.getD i default).label = .repeated
+
+/-- the case words of the oneof groups: members of a group share one, and a set case names a member of the group -/
+structure GroupOk (fields : List FieldDesc) (cs : Nat → Nat) (slots : List HSlot) : Prop where
+  grp : ∀ i g, i < fields.length → (fields.getD i default).group = some g → (hgetSlot slots i).q = cs g
+  sel : ∀ g, cs g = 0 ∨ ∃ j, j < fields.length ∧ (fields.getD j default).group = some g ∧ (fields.getD j default).id = cs g
 
 theorem ownedVals_append (S : Schema) : ∀ (a b : List HVal), ownedVals S (a ++ b) = ownedVals S a ++ ownedVals S b
   | [], b => by simp [ownedVals]
@@ -406,7 +415,9 @@ theorem hgetSlot_set_ne (sl : List HSlot) (i j : Nat) (s : HSlot) (h : i ≠ j) 
 theorem slotsOk_set (S : Schema) (fields : List FieldDesc) (slots : List HSlot) (h : SlotsOk S fields slots) (i : Nat)
     (hi : i < fields.length) (s : HSlot)
     (hs : match s with
-      | .one _ v => (fields.getD i default).label ≠ .repeated ∧ OwnOk S (fields.getD i default) v
+      | .one q v => (fields.getD i default).label ≠ .repeated ∧
+          (if ((fields.getD i default).isOneof && (fields.getD i default).id != q) = true then ownedVal S v = []
+           else OwnOk S (fields.getD i default) v)
       | .rep _ none => (fields.getD i default).label = .repeated
       | .rep _ (some _) => (fields.getD i default).label = .repeated) :
     SlotsOk S fields (hsetSlot slots i s) := by
@@ -445,6 +456,7 @@ theorem ownedSlot_one (S : Schema) (f : FieldDesc) (hg : f.group = none) (q : Na
 /-- a singular member of a flat message is overwritten -/
 theorem singular_step (S : Schema) (σ : Nat → Bool) (fuel ty : Nat) (hfl : FlatS (S.msg ty).fields) (sm : Scanned)
     (i : Nat) (hi : i < (S.msg ty).fields.length) (hl : ((S.msg ty).fields.getD i default).label ≠ .repeated)
+    (hng : ((S.msg ty).fields.getD i default).group = none)
     (id : Nat) (slots : List HSlot) (tbl : Option Nat) (unk : List (Unk × Option Nat))
     (hok : SlotsOk S (S.msg ty).fields slots) {h : Heap} {R : List Nat}
     (a : Acct h (ownedMsg S (.mk ty id slots tbl unk) ++ R)) (q2 : Nat) :
@@ -457,7 +469,7 @@ theorem singular_step (S : Schema) (σ : Nat → Bool) (fuel ty : Nat) (hfl : Fl
         (parseRequiredH S σ fuel ((S.msg ty).fields.getD i default) sm (hgetSlot slots i).v true h).2.1)) := by
   have hfi := getD_mem' _ i hi
   have hnm := hfl.nomsg _ hfi
-  have hng := hfl.nogrp _ hfi
+  have hno : ((S.msg ty).fields.getD i default).isOneof = false := by unfold FieldDesc.isOneof; rw [hng]; rfl
   have hil : i < slots.length := by rw [hok.1]; exact hi
   obtain ⟨X, hX⟩ := ownedMsg_split S ty id slots tbl unk i hi hil
   have hself : hsetSlot slots i (hgetSlot slots i) = slots := set_getD_self slots i hil
@@ -480,18 +492,471 @@ theorem singular_step (S : Schema) (σ : Nat → Bool) (fuel ty : Nat) (hfl : Fl
       refine acct_perm a ?_
       rw [← append_assoc]
       exact Perm.append_right R hown0
-    obtain ⟨a2, hok2⟩ := parseRequiredH_acct S σ fuel _ sm v0 true hnm hsl.2 (fun hc => by cases hc) a1
-    refine ⟨slotsOk_set S _ slots hok i hi _ ⟨hl, hok2⟩, ?_, hmono _⟩
+    have hold0 : OwnOk S ((S.msg ty).fields.getD i default) v0 := by
+      have := hsl.2
+      simp only [hno, Bool.false_and, Bool.false_eq_true, if_false] at this
+      exact this
+    obtain ⟨a2, hok2⟩ := parseRequiredH_acct S σ fuel _ sm v0 true hnm hold0 (fun hc => by cases hc) a1
+    refine ⟨slotsOk_set S _ slots hok i hi _ ⟨hl, by simp only [hno, Bool.false_and, Bool.false_eq_true, if_false]; exact hok2⟩, ?_, hmono _⟩
     refine acct_perm a2 ?_
     have hnew := hX (.one q2 (parseRequiredH S σ fuel ((S.msg ty).fields.getD i default) sm v0 true h).2.1) tbl unk
     rw [ownedSlot_one S _ hng] at hnew
     rw [← append_assoc]
     exact Perm.append_right R hnew.symm
 
+/-! ### oneof groups -/
+
+theorem ownedSlots_congr (S : Schema) : ∀ (fs : List FieldDesc) (a b : List HSlot), a.length = b.length →
+    (∀ j, j < fs.length → j < a.length → ownedSlot S (fs.getD j default) (a.getD j default) = ownedSlot S (fs.getD j default) (b.getD j default)) →
+    ownedSlots S fs a = ownedSlots S fs b
+  | [], _, _, _, _ => by simp [ownedSlots]
+  | _ :: _, [], [], _, _ => by simp [ownedSlots]
+  | _ :: _, [], _ :: _, h, _ => by simp at h
+  | _ :: _, _ :: _, [], h, _ => by simp at h
+  | f :: fs, x :: xs, y :: ys, hlen, h => by
+    simp only [ownedSlots]
+    have h0 := h 0 (by simp) (by simp)
+    simp only [getD_cons_zero] at h0
+    rw [h0, ownedSlots_congr S fs xs ys (by simpa using hlen)
+      (fun j hj hja => by simpa using h (j + 1) (by simpa using hj) (by simpa using hja))]
+
+theorem hzeroGroup_length (g : Nat) : ∀ (fs : List FieldDesc) (ss : List HSlot), (hzeroGroup g fs ss).length = ss.length
+  | [], ss => by simp [hzeroGroup]
+  | _ :: _, [] => by simp [hzeroGroup]
+  | f :: fs, s :: ss => by simp [hzeroGroup, hzeroGroup_length g fs ss]
+
+theorem hsetCase_length (g c : Nat) : ∀ (fs : List FieldDesc) (ss : List HSlot), (hsetCase g c fs ss).length = ss.length
+  | [], ss => by simp [hsetCase]
+  | _ :: _, [] => by simp [hsetCase]
+  | f :: fs, s :: ss => by simp [hsetCase, hsetCase_length g c fs ss]
+
+theorem getD_hzeroGroup (g : Nat) : ∀ (fs : List FieldDesc) (ss : List HSlot) (j : Nat),
+    fs.length = ss.length → j < ss.length →
+    (hzeroGroup g fs ss).getD j default =
+      if (fs.getD j default).group == some g then (match ss.getD j default with | .one q _ => .one q .zero | s => s)
+      else ss.getD j default
+  | [], [], j, _, hj => by simp at hj
+  | [], _ :: _, _, h, _ => by simp at h
+  | _ :: _, [], _, h, _ => by simp at h
+  | f :: fs, s :: ss, 0, _, _ => by
+    simp only [hzeroGroup, getD_cons_zero]
+    split <;> rfl
+  | f :: fs, s :: ss, j+1, h, hj => by
+    have := getD_hzeroGroup g fs ss j (by simpa using h) (by simpa using hj)
+    simpa [hzeroGroup] using this
+
+theorem getD_hsetCase (g c : Nat) : ∀ (fs : List FieldDesc) (ss : List HSlot) (j : Nat),
+    fs.length = ss.length → j < ss.length →
+    (hsetCase g c fs ss).getD j default =
+      if (fs.getD j default).group == some g then (match ss.getD j default with | .one _ v => .one c v | s => s)
+      else ss.getD j default
+  | [], [], j, _, hj => by simp at hj
+  | [], _ :: _, _, h, _ => by simp at h
+  | _ :: _, [], _, h, _ => by simp at h
+  | f :: fs, s :: ss, 0, _, _ => by
+    simp only [hsetCase, getD_cons_zero]
+    split <;> rfl
+  | f :: fs, s :: ss, j+1, h, hj => by
+    have := getD_hsetCase g c fs ss j (by simpa using h) (by simpa using hj)
+    simpa [hsetCase] using this
+
+theorem hgetD_set (sl : List HSlot) (i j : Nat) (s : HSlot) (hi : i < sl.length) :
+    (hsetSlot sl i s).getD j default = if j = i then s else sl.getD j default := by
+  by_cases h : j = i
+  · subst h; simp [hsetSlot, getD_eq_getElem?_getD, hi]
+  · simp only [h, if_false]
+    have := hgetSlot_set_ne sl i j s (fun e => h e.symm)
+    simpa [hgetSlot] using this
+
+theorem ownedSlot_zero_unsel (S : Schema) (f : FieldDesc) (hg : f.group.isSome = true) (hid : 0 < f.id) :
+    ownedSlot S f (.one 0 .zero) = [] := by
+  have ho : f.isOneof = true := hg
+  have : (f.id != 0) = true := by simp; omega
+  simp [ownedSlot, ho, this]
+
+/-- what the blocks of a message are when a whole oneof group is rewritten: at most one member (k) of the group owned
+    something before, at most one (i) owns something afterwards, the rest of the message is common -/
+theorem group_owned (S : Schema) (ty id : Nat) (tbl : Option Nat) (unk : List (Unk × Option Nat)) (slots T : List HSlot)
+    (g k i : Nat) (hk : k < (S.msg ty).fields.length) (hi : i < (S.msg ty).fields.length)
+    (hls : slots.length = (S.msg ty).fields.length) (hlt : T.length = (S.msg ty).fields.length)
+    (hkg : ((S.msg ty).fields.getD k default).group = some g) (hig : ((S.msg ty).fields.getD i default).group = some g)
+    (hkid : 0 < ((S.msg ty).fields.getD k default).id)
+    (hsl : ∀ j, j < (S.msg ty).fields.length → ((S.msg ty).fields.getD j default).group = some g → j ≠ k →
+      ownedSlot S ((S.msg ty).fields.getD j default) (slots.getD j default) = [])
+    (hTn : ∀ j, j < (S.msg ty).fields.length → ((S.msg ty).fields.getD j default).group ≠ some g →
+      T.getD j default = slots.getD j default)
+    (hTm : ∀ j, j < (S.msg ty).fields.length → ((S.msg ty).fields.getD j default).group = some g → j ≠ i →
+      ownedSlot S ((S.msg ty).fields.getD j default) (T.getD j default) = []) :
+    ∃ OB, (ownedMsg S (.mk ty id slots tbl unk)).Perm (ownedSlot S ((S.msg ty).fields.getD k default) (slots.getD k default) ++ OB) ∧
+      (ownedMsg S (.mk ty id T tbl unk)).Perm (ownedSlot S ((S.msg ty).fields.getD i default) (T.getD i default) ++ OB) := by
+  have hkl : k < slots.length := by rw [hls]; exact hk
+  let B := hsetSlot slots k (.one 0 .zero)
+  have hBlen : B.length = (S.msg ty).fields.length := by simp [B, hsetSlot, hls]
+  have hil : i < B.length := by rw [hBlen]; exact hi
+  have hz := ownedSlot_zero_unsel S ((S.msg ty).fields.getD k default) (by rw [hkg]; rfl) hkid
+  refine ⟨ownedMsg S (.mk ty id B tbl unk), ?_, ?_⟩
+  · obtain ⟨X, hX⟩ := ownedMsg_split S ty id slots tbl unk k hk hkl
+    have h1 := hX (slots.getD k default) tbl unk
+    have hself : hsetSlot slots k (slots.getD k default) = slots := set_getD_self slots k hkl
+    rw [hself] at h1
+    have h2 := hX (.one 0 .zero) tbl unk
+    rw [hz, nil_append] at h2
+    exact h1.trans (Perm.append_left _ h2.symm)
+  · -- T and (B with slot i replaced by T's) own the same
+    have hcongr : ownedSlots S (S.msg ty).fields T = ownedSlots S (S.msg ty).fields (hsetSlot B i (T.getD i default)) := by
+      apply ownedSlots_congr S _ _ _ (by simp [hsetSlot, hBlen, hlt])
+      intro j hj _
+      rw [hgetD_set B i j _ hil]
+      by_cases hji : j = i
+      · simp only [hji, if_true]
+      · simp only [hji, if_false]
+        show _ = ownedSlot S _ ((hsetSlot slots k (.one 0 .zero)).getD j default)
+        rw [hgetD_set slots k j _ hkl]
+        by_cases hjg : ((S.msg ty).fields.getD j default).group = some g
+        · rw [hTm j hj hjg hji]
+          by_cases hjk : j = k
+          · simp only [hjk, if_true]; exact hz.symm
+          · simp only [hjk, if_false]; exact (hsl j hj hjg hjk).symm
+        · have hjk : j ≠ k := by intro e; subst e; exact hjg hkg
+          simp only [hjk, if_false]
+          rw [hTn j hj hjg]
+    obtain ⟨X, hX⟩ := ownedMsg_split S ty id B tbl unk i hi hil
+    have h1 := hX (T.getD i default) tbl unk
+    have h2 := hX (B.getD i default) tbl unk
+    have hself : hsetSlot B i (B.getD i default) = B := set_getD_self B i hil
+    rw [hself] at h2
+    have hBi : ownedSlot S ((S.msg ty).fields.getD i default) (B.getD i default) = [] := by
+      show ownedSlot S _ ((hsetSlot slots k (.one 0 .zero)).getD i default) = []
+      rw [hgetD_set slots k i _ hkl]
+      by_cases hik : i = k
+      · simp only [hik, if_true]; exact hz
+      · simp only [hik, if_false]; exact hsl i hi hig hik
+    rw [hBi, nil_append] at h2
+    have e : ownedMsg S (.mk ty id T tbl unk) = ownedMsg S (.mk ty id (hsetSlot B i (T.getD i default)) tbl unk) := by
+      simp only [ownedMsg, hcongr]
+    rw [e]
+    exact h1.trans (Perm.append_left _ h2.symm)
+
+/-- what a record of a oneof member does (the oneof branch of `parse_member`) -/
+def oneofH (S : Schema) (σ : Nat → Bool) (fuel : Nat) (fields : List FieldDesc) (f : FieldDesc) (g : Nat) (sm : Scanned) (i : Nat)
+    (ty id : Nat) (slots : List HSlot) (tbl : Option Nat) (unk : List (Unk × Option Nat)) (h : Heap) : Bool × HMsg × Heap :=
+  let q := (hgetSlot slots i).q
+  if q != 0 && !(q == sm.tag && f.type == .message) then
+    match lookupField fields q with
+    | none => (false, .mk ty id slots tbl unk, h)
+    | some oi =>
+      let h1 := freeVal S (hgetSlot slots oi).v h
+      let slots1 := hzeroGroup g fields slots
+      let r := parseRequiredH S σ fuel f sm (hgetSlot slots1 i).v true h1
+      if r.1 then (true, .mk ty id (hsetCase g sm.tag fields (hsetSlot slots1 i (.one q r.2.1))) tbl unk, r.2.2)
+      else (false, .mk ty id (hsetSlot slots1 i (.one q r.2.1)) tbl unk, r.2.2)
+  else
+    let r := parseRequiredH S σ fuel f sm (hgetSlot slots i).v true h
+    if r.1 then (true, .mk ty id (hsetCase g sm.tag fields (hsetSlot slots i (.one q r.2.1))) tbl unk, r.2.2)
+    else (false, .mk ty id (hsetSlot slots i (.one q r.2.1)) tbl unk, r.2.2)
+
+theorem parseMemberH_oneof (S : Schema) (σ : Nat → Bool) (fuel : Nat) (fields : List FieldDesc) (sm : Scanned) (i g : Nat)
+    (hi : sm.fidx = some i) (hg : (fields.getD i default).group = some g)
+    (hl : (fields.getD i default).label ≠ .repeated ∧ (fields.getD i default).label ≠ .required)
+    (ty id : Nat) (slots : List HSlot) (tbl : Option Nat) (unk : List (Unk × Option Nat)) (h : Heap) :
+    parseMemberH S σ fuel fields sm (.mk ty id slots tbl unk) h =
+      oneofH S σ fuel fields (fields.getD i default) g sm i ty id slots tbl unk h := by
+  unfold parseMemberH oneofH
+  simp only [hi]
+  cases hlab : (fields.getD i default).label with
+  | required => exact absurd hlab hl.2
+  | repeated => exact absurd hlab hl.1
+  | optional => simp only [hg]; rfl
+  | none => simp only [hg]; rfl
+
+theorem lookupField_sel (fields : List FieldDesc) (hd : Pbc.Props.C01.IdsDistinct fields) (j : Nat) (hj : j < fields.length)
+    (t : Nat) (hid : (fields.getD j default).id = t) (ht : t < 2 ^ 31) : lookupField fields t = some j := by
+  unfold lookupField
+  rw [if_neg (by omega)]
+  apply Pbc.Props.C01.findIdx_of_id hd hj
+  rw [← Pbc.Props.C01.getD_fields fields j hj]; exact hid
+
+theorem ids_ne' (fields : List FieldDesc) (hd : Pbc.Props.C01.IdsDistinct fields) (i j : Nat) (hi : i < fields.length)
+    (hj : j < fields.length) (hne : i ≠ j) : (fields.getD i default).id ≠ (fields.getD j default).id :=
+  Pbc.Props.C06.ids_ne fields hd i j hi hj hne
+
+/-- a member of a oneof group is a singular slot carrying the group's case word -/
+theorem group_slot (S : Schema) (fields : List FieldDesc) (hfl : FlatS fields) (slots : List HSlot) (cs : Nat → Nat)
+    (hok : SlotsOk S fields slots) (hgk : GroupOk fields cs slots) (j g : Nat) (hj : j < fields.length)
+    (hg : (fields.getD j default).group = some g) :
+    ∃ v, slots.getD j default = .one (cs g) v ∧
+      ((fields.getD j default).id = cs g → OwnOk S (fields.getD j default) v) ∧
+      ((fields.getD j default).id ≠ cs g → ownedVal S v = []) := by
+  have h1 := hok.2 j hj
+  have h2 := hgk.grp j g hj hg
+  have hlab := (hfl.oneof _ (getD_mem' _ j hj) (by rw [hg]; rfl)).1
+  have hone : (fields.getD j default).isOneof = true := by unfold FieldDesc.isOneof; rw [hg]; rfl
+  unfold hgetSlot at h1 h2
+  cases hs : slots.getD j default with
+  | rep n a =>
+    rw [hs] at h1
+    cases a with
+    | none => exact absurd h1 hlab
+    | some p => exact absurd h1 hlab
+  | one q v =>
+    rw [hs] at h1 h2
+    have hq : q = cs g := h2
+    subst hq
+    refine ⟨v, rfl, fun hid => ?_, fun hid => ?_⟩
+    · have := h1.2
+      rwa [if_neg (by rw [hid]; simp)] at this
+    · have := h1.2
+      rwa [if_pos (by rw [hone]; simp only [Bool.true_and, bne_iff_ne, ne_eq]; exact hid)] at this
+
+/-- the slots after a oneof record: members of group g other than i hold case c and own nothing, member i holds (c, w),
+    everything else is unchanged -/
+structure GroupStep (S : Schema) (fields : List FieldDesc) (slots T : List HSlot) (g i c : Nat) (w : HVal) : Prop where
+  len : T.length = fields.length
+  other : ∀ j, j < fields.length → (fields.getD j default).group ≠ some g → T.getD j default = slots.getD j default
+  memb : ∀ j, j < fields.length → (fields.getD j default).group = some g → j ≠ i →
+    ∃ v, T.getD j default = .one c v ∧ ownedVal S v = []
+  self : T.getD i default = .one c w
+
+theorem groupStep_ok (S : Schema) (fields : List FieldDesc) (hfl : FlatS fields) (slots T : List HSlot) (cs : Nat → Nat)
+    (g i c : Nat) (w : HVal) (hi : i < fields.length) (hgrp : (fields.getD i default).group = some g)
+    (hok : SlotsOk S fields slots) (hgk : GroupOk fields cs slots) (st : GroupStep S fields slots T g i c w)
+    (hw1 : c = (fields.getD i default).id → OwnOk S (fields.getD i default) w)
+    (hw2 : c ≠ (fields.getD i default).id → ownedVal S w = [])
+    (hc : c = 0 ∨ ∃ j, j < fields.length ∧ (fields.getD j default).group = some g ∧ (fields.getD j default).id = c) :
+    SlotsOk S fields T ∧ GroupOk fields (fun x => if x = g then c else cs x) T ∧ ArrMono slots T := by
+  refine ⟨⟨st.len, fun j hj => ?_⟩, ⟨fun j g' hj hg' => ?_, fun g' => ?_⟩, fun j hjr => ?_⟩
+  · unfold hgetSlot
+    by_cases hjg : (fields.getD j default).group = some g
+    · have hlab := (hfl.oneof _ (getD_mem' _ j hj) (by rw [hjg]; rfl)).1
+      have hone : (fields.getD j default).isOneof = true := by unfold FieldDesc.isOneof; rw [hjg]; rfl
+      by_cases hji : j = i
+      · subst hji
+        rw [st.self]
+        refine ⟨hlab, ?_⟩
+        by_cases hcid : c = (fields.getD j default).id
+        · rw [if_neg (by rw [← hcid]; simp)]; exact hw1 hcid
+        · rw [if_pos (by rw [hone]; simp only [Bool.true_and, bne_iff_ne, ne_eq]; exact fun e => hcid e.symm)]; exact hw2 hcid
+      · obtain ⟨v, hv, hv0⟩ := st.memb j hj hjg hji
+        rw [hv]
+        refine ⟨hlab, ?_⟩
+        split
+        · exact hv0
+        · exact Or.inl hv0
+    · rw [st.other j hj hjg]
+      exact hok.2 j hj
+  · unfold hgetSlot
+    by_cases hgg : g' = g
+    · subst hgg
+      simp only [if_true]
+      by_cases hji : j = i
+      · subst hji; rw [st.self]; rfl
+      · obtain ⟨v, hv, _⟩ := st.memb j hj hg' hji
+        rw [hv]; rfl
+    · simp only [hgg, if_false]
+      rw [st.other j hj (by rw [hg']; intro e; cases e; exact hgg rfl)]
+      exact hgk.grp j g' hj hg'
+  · by_cases hgg : g' = g
+    · subst hgg; simp only [if_true]; exact hc
+    · simp only [hgg, if_false]; exact hgk.sel g'
+  · unfold hgetSlot at hjr ⊢
+    by_cases hj : j < fields.length
+    · by_cases hjg : (fields.getD j default).group = some g
+      · exfalso
+        obtain ⟨v, hv, _⟩ := group_slot S fields hfl slots cs hok hgk j g hj hjg
+        obtain ⟨n, p, hnp⟩ := hjr
+        rw [hv] at hnp; cases hnp
+      · rw [st.other j hj hjg]; exact hjr
+    · have h1 : T.getD j default = default := by
+        rw [getD_eq_getElem?_getD, getElem?_eq_none (by rw [st.len]; omega)]; rfl
+      have h2 : slots.getD j default = default := by
+        rw [getD_eq_getElem?_getD, getElem?_eq_none (by rw [hok.1]; omega)]; rfl
+      rw [h1]; rw [h2] at hjr; exact hjr
+
+theorem groupStep_owned (S : Schema) (ty id : Nat) (tbl : Option Nat) (unk : List (Unk × Option Nat)) (slots T : List HSlot)
+    (g k i c : Nat) (w : HVal) (hk : k < (S.msg ty).fields.length) (hi : i < (S.msg ty).fields.length)
+    (hls : slots.length = (S.msg ty).fields.length)
+    (hkg : ((S.msg ty).fields.getD k default).group = some g) (hig : ((S.msg ty).fields.getD i default).group = some g)
+    (hkid : 0 < ((S.msg ty).fields.getD k default).id)
+    (hsl : ∀ j, j < (S.msg ty).fields.length → ((S.msg ty).fields.getD j default).group = some g → j ≠ k →
+      ownedSlot S ((S.msg ty).fields.getD j default) (slots.getD j default) = [])
+    (st : GroupStep S (S.msg ty).fields slots T g i c w)
+    (hcw : c = ((S.msg ty).fields.getD i default).id ∨ ownedVal S w = []) :
+    ∃ OB, (ownedMsg S (.mk ty id slots tbl unk)).Perm (ownedSlot S ((S.msg ty).fields.getD k default) (slots.getD k default) ++ OB) ∧
+      (ownedMsg S (.mk ty id T tbl unk)).Perm (ownedVal S w ++ OB) := by
+  obtain ⟨OB, h1, h2⟩ := group_owned S ty id tbl unk slots T g k i hk hi hls st.len hkg hig hkid hsl st.other
+    (fun j hj hjg hji => by
+      obtain ⟨v, hv, hv0⟩ := st.memb j hj hjg hji
+      rw [hv]; simp [ownedSlot, hv0])
+  refine ⟨OB, h1, ?_⟩
+  rw [st.self] at h2
+  have : ownedSlot S ((S.msg ty).fields.getD i default) (.one c w) = ownedVal S w := by
+    rcases hcw with hc | hw0
+    · simp [ownedSlot, hc]
+    · simp [ownedSlot, hw0]
+  rwa [this] at h2
+
+/-- the common tail of the oneof branch: the parsed value is stored into member i of `base` (the message with the group
+    emptied), and on success the group's case word is set -/
+theorem oneof_tail (S : Schema) (ty : Nat) (hfl : FlatS (S.msg ty).fields) (tag i g : Nat)
+    (hi : i < (S.msg ty).fields.length) (hgrp : ((S.msg ty).fields.getD i default).group = some g)
+    (htag : ((S.msg ty).fields.getD i default).id = tag)
+    (id : Nat) (slots : List HSlot) (tbl : Option Nat) (unk : List (Unk × Option Nat)) (cs : Nat → Nat)
+    (hok : SlotsOk S (S.msg ty).fields slots) (hgk : GroupOk (S.msg ty).fields cs slots)
+    (base : List HSlot) (k : Nat) (hk : k < (S.msg ty).fields.length)
+    (hkg : ((S.msg ty).fields.getD k default).group = some g)
+    (hsl : ∀ j, j < (S.msg ty).fields.length → ((S.msg ty).fields.getD j default).group = some g → j ≠ k →
+      ownedSlot S ((S.msg ty).fields.getD j default) (slots.getD j default) = [])
+    (hbl : base.length = (S.msg ty).fields.length)
+    (hbn : ∀ j, j < (S.msg ty).fields.length → ((S.msg ty).fields.getD j default).group ≠ some g →
+      base.getD j default = slots.getD j default)
+    (hbm : ∀ j, j < (S.msg ty).fields.length → ((S.msg ty).fields.getD j default).group = some g →
+      ∃ v, base.getD j default = .one (cs g) v ∧ ownedVal S v = [])
+    (ok : Bool) (w : HVal) (h2 : Heap)
+    (hfail : ok = false → ownedVal S w = []) {R : List Nat}
+    (a2 : ∀ OB, (ownedMsg S (.mk ty id slots tbl unk)).Perm
+        (ownedSlot S ((S.msg ty).fields.getD k default) (slots.getD k default) ++ OB) →
+        Acct h2 (ownedVal S w ++ (OB ++ R)) ∧ OwnOk S ((S.msg ty).fields.getD i default) w) :
+    ∃ slots2 cs2,
+      (if ok = true then ((true, HMsg.mk ty id (hsetCase g tag (S.msg ty).fields (hsetSlot base i (.one (cs g) w))) tbl unk, h2) : Bool × HMsg × Heap)
+        else (false, HMsg.mk ty id (hsetSlot base i (.one (cs g) w)) tbl unk, h2)).2.1 = .mk ty id slots2 tbl unk ∧
+      SlotsOk S (S.msg ty).fields slots2 ∧ GroupOk (S.msg ty).fields cs2 slots2 ∧
+      Acct (if ok = true then ((true, HMsg.mk ty id (hsetCase g tag (S.msg ty).fields (hsetSlot base i (.one (cs g) w))) tbl unk, h2) : Bool × HMsg × Heap)
+        else (false, HMsg.mk ty id (hsetSlot base i (.one (cs g) w)) tbl unk, h2)).2.2
+        (ownedMsg S (.mk ty id slots2 tbl unk) ++ R) ∧ ArrMono slots slots2 := by
+  have hib : i < base.length := by rw [hbl]; exact hi
+  have hkid := (hfl.ids _ (getD_mem' _ k hk)).1
+  -- the failure shape
+  have stF : GroupStep S (S.msg ty).fields slots (hsetSlot base i (.one (cs g) w)) g i (cs g) w := by
+    refine ⟨by simp [hsetSlot, hbl], fun j hj hjg => ?_, fun j hj hjg hji => ?_, ?_⟩
+    · have hji : j ≠ i := by intro e; subst e; exact hjg hgrp
+      rw [hgetD_set base i j _ hib, if_neg hji]; exact hbn j hj hjg
+    · rw [hgetD_set base i j _ hib, if_neg hji]; exact hbm j hj hjg
+    · rw [hgetD_set base i i _ hib, if_pos rfl]
+  cases ok with
+  | false =>
+    simp only [Bool.false_eq_true, if_false]
+    have hw0 := hfail rfl
+    obtain ⟨OB, p1, p2⟩ := groupStep_owned S ty id tbl unk slots _ g k i (cs g) w hk hi hok.1 hkg hgrp hkid hsl stF (Or.inr hw0)
+    obtain ⟨h1, h2', h3⟩ := groupStep_ok S _ hfl slots _ cs g i (cs g) w hi hgrp hok hgk stF (fun _ => (a2 OB p1).2) (fun _ => hw0) (hgk.sel g)
+    refine ⟨_, _, rfl, h1, h2', ?_, h3⟩
+    exact acct_perm (a2 OB p1).1 (by
+      have := (p2.append_right R).symm
+      simpa [append_assoc] using this)
+  | true =>
+    simp only [if_true]
+    have hlenF : (hsetSlot base i (.one (cs g) w)).length = (S.msg ty).fields.length := stF.len
+    have stT : GroupStep S (S.msg ty).fields slots (hsetCase g tag (S.msg ty).fields (hsetSlot base i (.one (cs g) w))) g i tag w := by
+      refine ⟨by rw [hsetCase_length, hlenF], fun j hj hjg => ?_, fun j hj hjg hji => ?_, ?_⟩
+      · rw [getD_hsetCase g tag _ _ j hlenF.symm (by rw [hlenF]; exact hj)]
+        rw [if_neg (by simpa using hjg)]
+        exact stF.other j hj hjg
+      · rw [getD_hsetCase g tag _ _ j hlenF.symm (by rw [hlenF]; exact hj)]
+        rw [if_pos (by simpa using hjg)]
+        obtain ⟨v, hv, hv0⟩ := stF.memb j hj hjg hji
+        rw [hv]; exact ⟨v, rfl, hv0⟩
+      · rw [getD_hsetCase g tag _ _ i hlenF.symm (by rw [hlenF]; exact hi)]
+        rw [if_pos (by simpa using hgrp), stF.self]
+    obtain ⟨OB, p1, p2⟩ := groupStep_owned S ty id tbl unk slots _ g k i tag w hk hi hok.1 hkg hgrp hkid hsl stT (Or.inl htag.symm)
+    obtain ⟨h1, h2', h3⟩ := groupStep_ok S _ hfl slots _ cs g i tag w hi hgrp hok hgk stT (fun _ => (a2 OB p1).2)
+      (fun hne => absurd htag.symm hne) (Or.inr ⟨i, hi, hgrp, htag⟩)
+    refine ⟨_, _, rfl, h1, h2', ?_, h3⟩
+    exact acct_perm (a2 OB p1).1 (by
+      have := (p2.append_right R).symm
+      simpa [append_assoc] using this)
+
+/-- a record of a oneof member (messages without embedded messages): the previously selected member is released, the
+    group is emptied, the new member takes over — or, on failure, the group is left empty -/
+theorem oneofH_acct (S : Schema) (σ : Nat → Bool) (fuel ty : Nat) (hfl : FlatS (S.msg ty).fields) (sm : Scanned)
+    (i g : Nat) (hi : i < (S.msg ty).fields.length) (hgrp : ((S.msg ty).fields.getD i default).group = some g)
+    (htag : ((S.msg ty).fields.getD i default).id = sm.tag)
+    (id : Nat) (slots : List HSlot) (tbl : Option Nat) (unk : List (Unk × Option Nat)) (cs : Nat → Nat)
+    (hok : SlotsOk S (S.msg ty).fields slots) (hgk : GroupOk (S.msg ty).fields cs slots) {h : Heap} {R : List Nat}
+    (a : Acct h (ownedMsg S (.mk ty id slots tbl unk) ++ R)) :
+    ∃ slots2 cs2,
+      (oneofH S σ fuel (S.msg ty).fields ((S.msg ty).fields.getD i default) g sm i ty id slots tbl unk h).2.1 = .mk ty id slots2 tbl unk ∧
+      SlotsOk S (S.msg ty).fields slots2 ∧ GroupOk (S.msg ty).fields cs2 slots2 ∧
+      Acct (oneofH S σ fuel (S.msg ty).fields ((S.msg ty).fields.getD i default) g sm i ty id slots tbl unk h).2.2
+        (ownedMsg S (.mk ty id slots2 tbl unk) ++ R) ∧ ArrMono slots slots2 := by
+  have hnm := hfl.nomsg _ (getD_mem' _ i hi)
+  have hq : (hgetSlot slots i).q = cs g := hgk.grp i g hi hgrp
+  have hnm' : (((S.msg ty).fields.getD i default).type == PType.message) = false := by
+    cases ht : ((S.msg ty).fields.getD i default).type <;> first | rfl | exact absurd ht hnm
+  obtain ⟨vi, hvi, hvi1, hvi2⟩ := group_slot S _ hfl slots cs hok hgk i g hi hgrp
+  unfold oneofH
+  simp only [hq, hnm', Bool.and_false, Bool.not_false, Bool.and_true]
+  by_cases hq0 : cs g = 0
+  · -- no member selected: every member of the group owns nothing
+    rw [if_neg (by simp [hq0])]
+    have hall : ∀ j, j < (S.msg ty).fields.length → ((S.msg ty).fields.getD j default).group = some g →
+        ∃ v, slots.getD j default = .one (cs g) v ∧ ownedVal S v = [] := by
+      intro j hj hjg
+      obtain ⟨v, hv, _, hv2⟩ := group_slot S _ hfl slots cs hok hgk j g hj hjg
+      exact ⟨v, hv, hv2 (by have := (hfl.ids _ (getD_mem' _ j hj)).1; omega)⟩
+    have hown0 : ∀ j, j < (S.msg ty).fields.length → ((S.msg ty).fields.getD j default).group = some g →
+        ownedSlot S ((S.msg ty).fields.getD j default) (slots.getD j default) = [] := by
+      intro j hj hjg
+      obtain ⟨v, hv, hv0⟩ := hall j hj hjg
+      rw [hv]; simp [ownedSlot, hv0]
+    have hvi0 : ownedVal S vi = [] := by
+      obtain ⟨v, hv, hv0⟩ := hall i hi hgrp
+      rw [hvi] at hv; cases hv; exact hv0
+    have hv_eq : (hgetSlot slots i).v = vi := by unfold hgetSlot; rw [hvi]; rfl
+    rw [hv_eq]
+    refine oneof_tail S ty hfl sm.tag i g hi hgrp htag id slots tbl unk cs hok hgk slots i hi hgrp
+      (fun j hj hjg _ => hown0 j hj hjg) hok.1 (fun _ _ _ => rfl) hall _ _ _ ?_ ?_
+    · exact fun hf => parseRequiredH_fail_owned S σ fuel _ sm vi true h hnm hvi0 hf
+    · intro OB p
+      rw [hown0 i hi hgrp, nil_append] at p
+      have a1 : Acct h (ownedVal S vi ++ (OB ++ R)) := by
+        rw [hvi0, nil_append]; exact acct_perm a (p.append_right R)
+      exact parseRequiredH_acct S σ fuel _ sm vi true hnm (Or.inl hvi0) (fun e => by cases e) a1
+  · -- a member k is selected: its value is released, the group emptied
+    rw [if_pos (by simp [hq0])]
+    rcases hgk.sel g with h0 | ⟨k, hk, hkg, hkid⟩
+    · exact absurd h0 hq0
+    have hklt := (hfl.ids _ (getD_mem' _ k hk)).2
+    rw [lookupField_sel _ hfl.distinct k hk (cs g) hkid (by rw [← hkid]; exact hklt)]
+    simp only []
+    obtain ⟨vk, hvk, hvk1, _⟩ := group_slot S _ hfl slots cs hok hgk k g hk hkg
+    have hkv : (hgetSlot slots k).v = vk := by unfold hgetSlot; rw [hvk]; rfl
+    have hlz : (hzeroGroup g (S.msg ty).fields slots).length = (S.msg ty).fields.length := by rw [hzeroGroup_length, hok.1]
+    have hzm : ∀ j, j < (S.msg ty).fields.length → ((S.msg ty).fields.getD j default).group = some g →
+        (hzeroGroup g (S.msg ty).fields slots).getD j default = .one (cs g) .zero := by
+      intro j hj hjg
+      rw [getD_hzeroGroup g _ _ j hok.1.symm (by rw [hok.1]; exact hj), if_pos (by simpa using hjg)]
+      obtain ⟨v, hv, _⟩ := group_slot S _ hfl slots cs hok hgk j g hj hjg
+      rw [hv]
+    have hzi : (hgetSlot (hzeroGroup g (S.msg ty).fields slots) i).v = .zero := by
+      unfold hgetSlot; rw [hzm i hi hgrp]; rfl
+    rw [hzi, hkv]
+    have hsl : ∀ j, j < (S.msg ty).fields.length → ((S.msg ty).fields.getD j default).group = some g → j ≠ k →
+        ownedSlot S ((S.msg ty).fields.getD j default) (slots.getD j default) = [] := by
+      intro j hj hjg hjk
+      obtain ⟨v, hv, _, hv2⟩ := group_slot S _ hfl slots cs hok hgk j g hj hjg
+      have hne : ((S.msg ty).fields.getD j default).id ≠ cs g := by
+        rw [← hkid]; exact ids_ne' _ hfl.distinct j k hj hk hjk
+      rw [hv]; simp [ownedSlot, hv2 hne]
+    refine oneof_tail S ty hfl sm.tag i g hi hgrp htag id slots tbl unk cs hok hgk _ k hk hkg hsl hlz
+      (fun j hj hjg => by
+        rw [getD_hzeroGroup g _ _ j hok.1.symm (by rw [hok.1]; exact hj), if_neg (by simpa using hjg)])
+      (fun j hj hjg => ⟨.zero, hzm j hj hjg, rfl⟩) _ _ _ ?_ ?_
+    · exact fun hf => parseRequiredH_fail_owned S σ fuel _ sm .zero true _ hnm rfl hf
+    · intro OB p
+      have hks : ownedSlot S ((S.msg ty).fields.getD k default) (slots.getD k default) = ownedVal S vk := by
+        rw [hvk]; unfold ownedSlot; rw [hkid]; simp
+      rw [hks] at p
+      have a1 : Acct h (ownedVal S vk ++ (OB ++ R)) := by
+        have := acct_perm a (p.append_right R)
+        simpa [append_assoc] using this
+      have a2 := acct_freeVal S vk a1
+      exact parseRequiredH_acct S σ fuel _ sm .zero true hnm (Or.inl rfl) (fun e => by cases e)
+        (R := OB ++ R) (by simpa [ownedVal] using a2)
+
 /-- **one member** (flat schemas): whatever `parse_member` does — succeed, fail on a refused allocation, fail on a wrong
     wire type — the blocks outstanding are exactly those the message (as the C code leaves it) owns, plus the rest -/
-theorem parseMemberH_acct (S : Schema) (σ : Nat → Bool) (fuel ty : Nat) (hfl : FlatS (S.msg ty).fields) (sm : Scanned)
+theorem parseMemberH_plain (S : Schema) (σ : Nat → Bool) (fuel ty : Nat) (hfl : FlatS (S.msg ty).fields) (sm : Scanned)
     (hsm : ∀ i, sm.fidx = some i → i < (S.msg ty).fields.length)
+    (hpl : ∀ i, sm.fidx = some i → ((S.msg ty).fields.getD i default).group = none)
     (id : Nat) (slots : List HSlot) (tbl : Option Nat) (unk : List (Unk × Option Nat))
     (hok : SlotsOk S (S.msg ty).fields slots)
     (harr : ∀ i, sm.fidx = some i → ((S.msg ty).fields.getD i default).label = .repeated →
@@ -501,7 +966,8 @@ theorem parseMemberH_acct (S : Schema) (σ : Nat → Bool) (fuel ty : Nat) (hfl 
     ∃ slots2 unk2, (parseMemberH S σ fuel (S.msg ty).fields sm (.mk ty id slots tbl unk) h).2.1 = .mk ty id slots2 tbl unk2 ∧
       SlotsOk S (S.msg ty).fields slots2 ∧
       Acct (parseMemberH S σ fuel (S.msg ty).fields sm (.mk ty id slots tbl unk) h).2.2
-        (ownedMsg S (.mk ty id slots2 tbl unk2) ++ R) ∧ ArrMono slots slots2 := by
+        (ownedMsg S (.mk ty id slots2 tbl unk2) ++ R) ∧ ArrMono slots slots2 ∧
+      (slots2 = slots ∨ ∃ i s2, sm.fidx = some i ∧ slots2 = hsetSlot slots i s2) := by
   unfold parseMemberH
   cases hf : sm.fidx with
   | none =>
@@ -511,11 +977,11 @@ theorem parseMemberH_acct (S : Schema) (σ : Nat → Bool) (fuel ty : Nat) (hfl 
     | mk oid h2 =>
       cases oid with
       | none =>
-        refine ⟨slots, _, rfl, hok, ?_, arrMono_refl _⟩
+        refine ⟨slots, _, rfl, hok, ?_, arrMono_refl _, Or.inl rfl⟩
         have := (ha h2).2 hal
         simpa [ownedMsg, filterMap_append] using this
       | some d =>
-        refine ⟨slots, _, rfl, hok, ?_, arrMono_refl _⟩
+        refine ⟨slots, _, rfl, hok, ?_, arrMono_refl _, Or.inl rfl⟩
         have := (ha h2).1 d hal
         refine acct_perm this ?_
         simp only [ownedMsg, filterMap_append, filterMap_cons, filterMap_nil, append_assoc]
@@ -525,7 +991,7 @@ theorem parseMemberH_acct (S : Schema) (σ : Nat → Bool) (fuel ty : Nat) (hfl 
     have hi := hsm i hf
     have hfi := getD_mem' _ i hi
     have hnm := hfl.nomsg _ hfi
-    have hng := hfl.nogrp _ hfi
+    have hng := hpl i hf
     have hil : i < slots.length := by rw [hok.1]; exact hi
     obtain ⟨X, hX⟩ := ownedMsg_split S ty id slots tbl unk i hi hil
     have hself : hsetSlot slots i (hgetSlot slots i) = slots := set_getD_self slots i hil
@@ -536,24 +1002,24 @@ theorem parseMemberH_acct (S : Schema) (σ : Nat → Bool) (fuel ty : Nat) (hfl 
     cases hlab : ((S.msg ty).fields.getD i default).label with
     | required =>
       simp only
-      have := singular_step S σ fuel ty hfl sm i hi (by rw [hlab]; simp) id slots tbl unk hok a (hgetSlot slots i).q
-      exact ⟨_, unk, rfl, this.1, this.2.1, this.2.2⟩
+      have := singular_step S σ fuel ty hfl sm i hi (by rw [hlab]; simp) hng id slots tbl unk hok a (hgetSlot slots i).q
+      exact ⟨_, unk, rfl, this.1, this.2.1, this.2.2, Or.inr ⟨i, _, rfl, rfl⟩⟩
     | optional =>
       simp only [hng]
-      have := singular_step S σ fuel ty hfl sm i hi (by rw [hlab]; simp) id slots tbl unk hok a
+      have := singular_step S σ fuel ty hfl sm i hi (by rw [hlab]; simp) hng id slots tbl unk hok a
         (if ((parseRequiredH S σ fuel ((S.msg ty).fields.getD i default) sm (hgetSlot slots i).v true h).1 &&
             ((S.msg ty).fields.getD i default).hasQ) = true then 1 else (hgetSlot slots i).q)
-      exact ⟨_, unk, rfl, this.1, this.2.1, this.2.2⟩
+      exact ⟨_, unk, rfl, this.1, this.2.1, this.2.2, Or.inr ⟨i, _, rfl, rfl⟩⟩
     | none =>
       simp only [hng]
-      have := singular_step S σ fuel ty hfl sm i hi (by rw [hlab]; simp) id slots tbl unk hok a
+      have := singular_step S σ fuel ty hfl sm i hi (by rw [hlab]; simp) hng id slots tbl unk hok a
         (if ((parseRequiredH S σ fuel ((S.msg ty).fields.getD i default) sm (hgetSlot slots i).v true h).1 &&
             ((S.msg ty).fields.getD i default).hasQ) = true then 1 else (hgetSlot slots i).q)
-      exact ⟨_, unk, rfl, this.1, this.2.1, this.2.2⟩
+      exact ⟨_, unk, rfl, this.1, this.2.1, this.2.2, Or.inr ⟨i, _, rfl, rfl⟩⟩
     | repeated =>
       simp only
       cases hs : hgetSlot slots i with
-      | one q0 v0 => exact ⟨slots, unk, rfl, hok, a, arrMono_refl _⟩
+      | one q0 v0 => exact ⟨slots, unk, rfl, hok, a, arrMono_refl _, Or.inl rfl⟩
       | rep n arr =>
         rw [hs] at hsl hown0
         simp only
@@ -585,7 +1051,7 @@ theorem parseMemberH_acct (S : Schema) (σ : Nat → Bool) (fuel ty : Nat) (hfl 
         by_cases hpk : usesPackedPath ((S.msg ty).fields.getD i default) sm.wt = true
         · simp only [hpk, if_true]
           cases hpp : parsePacked ((S.msg ty).fields.getD i default).type (drop sm.prefLen sm.data) with
-          | none => exact ⟨slots, unk, rfl, hok, a, arrMono_refl _⟩
+          | none => exact ⟨slots, unk, rfl, hok, a, arrMono_refl _, Or.inl rfl⟩
           | some vs =>
             simp only
             obtain ⟨_, _, _, hokv⟩ := Pbc.Props.C06.parsePacked_ok _ _ _ hpp
@@ -593,12 +1059,12 @@ theorem parseMemberH_acct (S : Schema) (σ : Nat → Bool) (fuel ty : Nat) (hfl 
             cases arr with
             | none =>
               have := grow none (n + vs.length) [] (by simp only [ownedSlot, nil_append]; exact Perm.refl _) (fun hh => by cases hh) h (by simpa using a)
-              exact ⟨_, unk, rfl, this.1, this.2.1, this.2.2⟩
+              exact ⟨_, unk, rfl, this.1, this.2.1, this.2.2, Or.inr ⟨i, _, rfl, rfl⟩⟩
             | some p =>
               obtain ⟨aid, l⟩ := p
               have := grow (some (aid, l ++ map liftVal vs)) (n + vs.length) []
                 (by simp only [ownedSlot, ownedVals_append, hlift, append_nil, nil_append]; exact Perm.refl _) (fun _ => rfl) h (by simpa using a)
-              exact ⟨_, unk, rfl, this.1, this.2.1, this.2.2⟩
+              exact ⟨_, unk, rfl, this.1, this.2.1, this.2.2, Or.inr ⟨i, _, rfl, rfl⟩⟩
         · simp only [hpk, Bool.false_eq_true, if_false]
           have hpk' : usesPackedPath ((S.msg ty).fields.getD i default) sm.wt = false := by simpa using hpk
           obtain ⟨n', p', hsome⟩ := harr i hf hlab hpk'
@@ -615,40 +1081,80 @@ theorem parseMemberH_acct (S : Schema) (σ : Nat → Bool) (fuel ty : Nat) (hfl 
               (by
                 simp only [ownedSlot, ownedVals_append, ownedVals, append_nil, append_assoc]
                 exact perm_mid (ownedVals S l) _ [aid]) (fun _ => rfl) _ a2
-            exact ⟨_, unk, rfl, this.1, this.2.1, this.2.2⟩
+            exact ⟨_, unk, rfl, this.1, this.2.1, this.2.2, Or.inr ⟨i, _, rfl, rfl⟩⟩
           · -- the element that failed to parse owns nothing (a refused allocation leaves a NULL pointer)
             rename_i hfail
             have hv0 : ownedVal S (parseRequiredH S σ fuel ((S.msg ty).fields.getD i default) sm HVal.zero false h).2.1 = [] :=
               parseRequiredH_fail_owned S σ fuel _ sm .zero false h hnm rfl (by simpa using hfail)
             rw [hv0] at a2
-            exact ⟨slots, unk, rfl, hok, by simpa using a2, arrMono_refl _⟩
+            exact ⟨slots, unk, rfl, hok, by simpa using a2, arrMono_refl _, Or.inl rfl⟩
 
-/-- **the parse pass** (flat schemas) -/
+theorem groupOk_set_plain (fields : List FieldDesc) (cs : Nat → Nat) (slots : List HSlot) (h : GroupOk fields cs slots)
+    (i : Nat) (hg : (fields.getD i default).group = none) (s2 : HSlot) : GroupOk fields cs (hsetSlot slots i s2) := by
+  refine ⟨fun j g hj hgj => ?_, h.sel⟩
+  have hji : i ≠ j := by intro e; subst e; rw [hg] at hgj; cases hgj
+  rw [hgetSlot_set_ne _ _ _ _ hji]
+  exact h.grp j g hj hgj
+
+/-- **one member**: whatever `parse_member` does — succeed, fail on a refused allocation, fail on a wrong wire type — the
+    blocks outstanding are exactly those the message (as the C code leaves it) owns, plus the rest -/
+theorem parseMemberH_acct (S : Schema) (σ : Nat → Bool) (fuel ty : Nat) (hfl : FlatS (S.msg ty).fields) (sm : Scanned)
+    (hsm : ∀ i, sm.fidx = some i → i < (S.msg ty).fields.length)
+    (hsm2 : ∀ i, sm.fidx = some i → ((S.msg ty).fields.getD i default).id = sm.tag)
+    (id : Nat) (slots : List HSlot) (tbl : Option Nat) (unk : List (Unk × Option Nat)) (cs : Nat → Nat)
+    (hok : SlotsOk S (S.msg ty).fields slots) (hgk : GroupOk (S.msg ty).fields cs slots)
+    (harr : ∀ i, sm.fidx = some i → ((S.msg ty).fields.getD i default).label = .repeated →
+      usesPackedPath ((S.msg ty).fields.getD i default) sm.wt = false → ∃ n p, hgetSlot slots i = .rep n (some p))
+    {h : Heap} {R : List Nat}
+    (a : Acct h (ownedMsg S (.mk ty id slots tbl unk) ++ R)) :
+    ∃ slots2 unk2 cs2, (parseMemberH S σ fuel (S.msg ty).fields sm (.mk ty id slots tbl unk) h).2.1 = .mk ty id slots2 tbl unk2 ∧
+      SlotsOk S (S.msg ty).fields slots2 ∧ GroupOk (S.msg ty).fields cs2 slots2 ∧
+      Acct (parseMemberH S σ fuel (S.msg ty).fields sm (.mk ty id slots tbl unk) h).2.2
+        (ownedMsg S (.mk ty id slots2 tbl unk2) ++ R) ∧ ArrMono slots slots2 := by
+  by_cases hgr : ∃ i g, sm.fidx = some i ∧ ((S.msg ty).fields.getD i default).group = some g
+  · obtain ⟨i, g, hf, hg⟩ := hgr
+    have hi := hsm i hf
+    have hlab := hfl.oneof _ (getD_mem' _ i hi) (by rw [hg]; rfl)
+    rw [parseMemberH_oneof S σ fuel _ sm i g hf hg hlab]
+    obtain ⟨s2, cs2, h1, h2, h3, h4, h5⟩ := oneofH_acct S σ fuel ty hfl sm i g hi hg (hsm2 i hf) id slots tbl unk cs hok hgk a
+    exact ⟨s2, unk, cs2, h1, h2, h3, h4, h5⟩
+  · have hpl : ∀ i, sm.fidx = some i → ((S.msg ty).fields.getD i default).group = none := by
+      intro i hf
+      cases hg : ((S.msg ty).fields.getD i default).group with
+      | none => rfl
+      | some g => exact absurd ⟨i, g, hf, hg⟩ hgr
+    obtain ⟨s2, u2, h1, h2, h3, h4, h5⟩ := parseMemberH_plain S σ fuel ty hfl sm hsm hpl id slots tbl unk hok harr a
+    refine ⟨s2, u2, cs, h1, h2, ?_, h3, h4⟩
+    rcases h5 with rfl | ⟨i, sx, hf, rfl⟩
+    · exact hgk
+    · exact groupOk_set_plain _ cs slots hgk i (hpl i hf) sx
+
+/-- **the parse pass** -/
 theorem parseAllH_acct (S : Schema) (σ : Nat → Bool) (fuel ty : Nat) (hfl : FlatS (S.msg ty).fields) :
-    ∀ (l : List Scanned), (∀ sm ∈ l, ∀ i, sm.fidx = some i → i < (S.msg ty).fields.length) →
-    ∀ (id : Nat) (slots : List HSlot) (tbl : Option Nat) (unk : List (Unk × Option Nat)) (h : Heap) (R : List Nat),
-    SlotsOk S (S.msg ty).fields slots →
+    ∀ (l : List Scanned), (∀ sm ∈ l, ∀ i, sm.fidx = some i → i < (S.msg ty).fields.length ∧ ((S.msg ty).fields.getD i default).id = sm.tag) →
+    ∀ (id : Nat) (slots : List HSlot) (tbl : Option Nat) (unk : List (Unk × Option Nat)) (cs : Nat → Nat) (h : Heap) (R : List Nat),
+    SlotsOk S (S.msg ty).fields slots → GroupOk (S.msg ty).fields cs slots →
     (∀ sm ∈ l, ∀ i, sm.fidx = some i → ((S.msg ty).fields.getD i default).label = .repeated →
       usesPackedPath ((S.msg ty).fields.getD i default) sm.wt = false → ∃ n p, hgetSlot slots i = .rep n (some p)) →
     Acct h (ownedMsg S (.mk ty id slots tbl unk) ++ R) →
     ∃ slots2 unk2, (parseAllH S σ fuel (S.msg ty).fields l (.mk ty id slots tbl unk) h).2.1 = .mk ty id slots2 tbl unk2 ∧
-      SlotsOk S (S.msg ty).fields slots2 ∧
       Acct (parseAllH S σ fuel (S.msg ty).fields l (.mk ty id slots tbl unk) h).2.2 (ownedMsg S (.mk ty id slots2 tbl unk2) ++ R)
-  | [], _, id, slots, tbl, unk, h, R, hok, _, a => by
+  | [], _, id, slots, tbl, unk, cs, h, R, _, _, _, a => by
     simp only [parseAllH]
-    exact ⟨slots, unk, rfl, hok, a⟩
-  | sm :: rest, hall, id, slots, tbl, unk, h, R, hok, harr, a => by
-    obtain ⟨s2, u2, he, hok2, a2, hmono⟩ := parseMemberH_acct S σ fuel ty hfl sm (hall sm (mem_cons_self ..)) id slots tbl unk hok
-      (harr sm (mem_cons_self ..)) a
+    exact ⟨slots, unk, rfl, a⟩
+  | sm :: rest, hall, id, slots, tbl, unk, cs, h, R, hok, hgk, harr, a => by
+    obtain ⟨s2, u2, cs2, he, hok2, hgk2, a2, hmono⟩ := parseMemberH_acct S σ fuel ty hfl sm
+      (fun i hi => (hall sm (mem_cons_self ..) i hi).1) (fun i hi => (hall sm (mem_cons_self ..) i hi).2)
+      id slots tbl unk cs hok hgk (harr sm (mem_cons_self ..)) a
     simp only [parseAllH]
     generalize hr : parseMemberH S σ fuel (S.msg ty).fields sm (.mk ty id slots tbl unk) h = r at he a2
     obtain ⟨ok, m', h'⟩ := r
     simp only at he a2
     subst he
     cases ok with
-    | false => exact ⟨s2, u2, rfl, hok2, a2⟩
+    | false => exact ⟨s2, u2, rfl, a2⟩
     | true =>
-      exact parseAllH_acct S σ fuel ty hfl rest (fun x hx => hall x (mem_cons_of_mem _ hx)) id s2 tbl u2 h' R hok2
+      exact parseAllH_acct S σ fuel ty hfl rest (fun x hx => hall x (mem_cons_of_mem _ hx)) id s2 tbl u2 cs2 h' R hok2 hgk2
         (fun x hx i h1 h2 h3 => hmono i (harr x (mem_cons_of_mem _ hx) i h1 h2 h3)) a2
 
 /-! ### the scan pass: slabs -/
@@ -715,13 +1221,13 @@ def InitOk (S : Schema) (f : FieldDesc) : HSlot → Prop
 
 /-- a slot of the message under construction -/
 def SOk (S : Schema) (f : FieldDesc) : HSlot → Prop
-  | .one _ v => f.label ≠ .repeated ∧ OwnOk S f v
+  | .one q v => f.label ≠ .repeated ∧ (if (f.isOneof && f.id != q) = true then ownedVal S v = [] else OwnOk S f v)
   | .rep _ none => f.label = .repeated
   | .rep _ (some _) => f.label = .repeated
 
 theorem sok_of_init (S : Schema) (f : FieldDesc) (s : HSlot) (h : InitOk S f s) : SOk S f s := by
   cases s with
-  | one q v => exact ⟨h.1, Or.inl h.2⟩
+  | one q v => exact ⟨h.1, by split; exact h.2; exact Or.inl h.2⟩
   | rep n arr => cases arr with
     | none => exact h
     | some p => exact absurd h (by simp [InitOk])
@@ -994,9 +1500,10 @@ theorem unpackMsgH_eq (S : Schema) (σ : Nat → Bool) (fuel t : Nat) (b : Bytes
   rfl
 
 theorem tailH2_acct (S : Schema) (σ : Nat → Bool) (fuel t rv : Nat) (hfl : FlatS (S.msg t).fields) (bm : Option Nat)
-    (slabs : List Nat) (st : ScanState) (hst : ∀ sm ∈ st.acc, ∀ i, sm.fidx = some i → i < (S.msg t).fields.length)
+    (slabs : List Nat) (st : ScanState)
+    (hst : ∀ sm ∈ st.acc, ∀ i, sm.fidx = some i → i < (S.msg t).fields.length ∧ ((S.msg t).fields.getD i default).id = sm.tag)
     (firstBad : Option Nat) (okA : Bool) (slots1 : List HSlot) (h4 : Heap) (L : List Nat)
-    (hall2 : All2 (SOk S) (S.msg t).fields slots1)
+    (hall2 : All2 (SOk S) (S.msg t).fields slots1) (hgk1 : okA = true → GroupOk (S.msg t).fields (fun _ => 0) slots1)
     (harr1 : okA = true → firstBad.isSome = false → ∀ sm ∈ st.acc, ∀ i, sm.fidx = some i →
       ((S.msg t).fields.getD i default).label = .repeated →
       usesPackedPath ((S.msg t).fields.getD i default) sm.wt = false → ∃ n p, hgetSlot slots1 i = .rep n (some p))
@@ -1041,8 +1548,8 @@ theorem tailH2_acct (S : Schema) (σ : Nat → Bool) (fuel t rv : Nat) (hfl : Fl
           simp only [ownedMsg, filterMap_nil, append_nil, append_assoc, Option.toList_none, nil_append]
           -- tbl ++ (O ++ ([rv] ++ X))  ~  O ++ (tbl ++ ([rv] ++ X))
           exact perm_mid tbl.toList _ _
-        obtain ⟨s2, u2, he, _, a6⟩ := parseAllH_acct S σ fuel t hfl st.acc.reverse
-          (fun sm hsm => hst sm (by simpa using hsm)) rv slots1 tbl [] h5 _ hok1
+        obtain ⟨s2, u2, he, a6⟩ := parseAllH_acct S σ fuel t hfl st.acc.reverse
+          (fun sm hsm => hst sm (by simpa using hsm)) rv slots1 tbl [] (fun _ => 0) h5 _ hok1 (hgk1 (by simpa using hA))
           (fun sm hsm => harr1 (by simpa using hA) (by simpa using hB) sm (by simpa using hsm)) hu
         generalize hp : parseAllH S σ fuel (S.msg t).fields st.acc.reverse (.mk t rv slots1 tbl []) h5 = pr at he a6
         obtain ⟨ok, m3, h6⟩ := pr
@@ -1057,6 +1564,45 @@ theorem tailH2_acct (S : Schema) (σ : Nat → Bool) (fuel t rv : Nat) (hfl : Fl
             have := perm_mid (ownedMsg S (.mk t rv s2 tbl u2)) (slabs ++ bm.toList) L
             simpa [append_assoc] using this
           exact freeBm_acct bm (acct_frees slabs this)
+
+theorem allocArrays_keep (σ : Nat → Bool) (fields : List FieldDesc) (counts : List (Nat × Nat)) :
+    ∀ (i0 : Nat) (fs : List FieldDesc) (ss : List HSlot) (h : Heap), fs.length = ss.length →
+    (allocArrays σ fields counts i0 fs ss h).1 = true →
+    ∀ j, j < fs.length → (fs.getD j default).label ≠ .repeated →
+    (allocArrays σ fields counts i0 fs ss h).2.1.getD j default = ss.getD j default
+  | i0, [], [], h, _, _, j, hj, _ => by simp at hj
+  | i0, [], _ :: _, h, hl, _, _, _, _ => by simp at hl
+  | i0, _ :: _, [], h, hl, _, _, _, _ => by simp at hl
+  | i0, f :: fs, s :: ss, h, hl, hok, j, hj, hlab => by
+    simp only [allocArrays] at hok ⊢
+    by_cases hrep : (f.label == .repeated) = true
+    · have hfl : f.label = .repeated := by simpa using hrep
+      simp only [hrep, if_true] at hok ⊢
+      cases j with
+      | zero => simp only [getD_cons_zero] at hlab; exact absurd hfl hlab
+      | succ j =>
+        by_cases hn : ((counts.filter (fun c => c.1 == i0)).foldl (fun a c => a + c.2) 0 != 0) = true
+        · simp only [hn, if_true] at hok ⊢
+          cases hal : h.alloc σ (f.type.eltSize * (counts.filter (fun c => c.1 == i0)).foldl (fun a c => a + c.2) 0) with
+          | mk oid h1 =>
+            simp only [hal] at hok ⊢
+            cases oid with
+            | none => simp at hok
+            | some id =>
+              simp only at hok ⊢
+              have ih := allocArrays_keep σ fields counts (i0 + 1) fs ss h1 (by simpa using hl) hok j (by simpa using hj)
+                (by simpa using hlab)
+              simpa using ih
+        · simp only [hn, Bool.false_eq_true, if_false] at hok ⊢
+          have ih := allocArrays_keep σ fields counts (i0 + 1) fs ss h (by simpa using hl) hok j (by simpa using hj)
+            (by simpa using hlab)
+          simpa using ih
+    · simp only [hrep, Bool.false_eq_true, if_false] at hok ⊢
+      cases j with
+      | zero => simp
+      | succ j =>
+        have ih := allocArrays_keep σ fields counts (i0 + 1) fs ss h (by simpa using hl) hok j (by simpa using hj) (by simpa using hlab)
+        simpa using ih
 
 /-! ### every unpacked element of a repeated field finds its array -/
 
@@ -1268,7 +1814,23 @@ theorem unpackMsgH_acct (S : Schema) (σ : Nat → Bool) (fuel t : Nat) (hfl : F
           have hal2 := allocArrays_acct S σ (S.msg t).fields
             (st.counts.filter (fun c => c.1 < firstBad.getD (S.msg t).fields.length))
             0 (S.msg t).fields ((initMsg S t).slots.map liftSlot) h3 _ (init_all2 S t) a3
-          refine tailH2_acct S σ fuel t rv hfl bm slabs st (fun sm hsm i hi => (hok.2 sm hsm).fsome i hi |>.1) _ _ _ _ L hal2.1 ?_ hal2.2
+          refine tailH2_acct S σ fuel t rv hfl bm slabs st (fun sm hsm i hi => (hok.2 sm hsm).fsome i hi) _ _ _ _ L hal2.1 ?_ ?_ hal2.2
+          · -- the case words of the freshly initialised message are all 0
+            intro hokA
+            refine ⟨fun j g hj hg => ?_, fun _ => Or.inl rfl⟩
+            have hlabj := (hfl.oneof _ (getD_mem' _ j hj) (by rw [hg]; rfl)).1
+            have hkeep := allocArrays_keep σ (S.msg t).fields _ 0 (S.msg t).fields ((initMsg S t).slots.map liftSlot) h3
+              (init_all2 S t).length hokA j hj hlabj
+            unfold hgetSlot
+            refine (congrArg HSlot.q hkeep).trans ?_
+            have hin := (init_all2 S t).get j hj
+            rw [Pbc.Props.C01.initMsg_eq] at hin ⊢
+            simp only [Msg.slots, map_map] at hin ⊢
+            rw [getD_eq_getElem?_getD, getElem?_map, getElem?_eq_getElem hj]
+            simp only [Option.map_some, Option.getD_some, Function.comp]
+            obtain ⟨v0, hv0⟩ := Pbc.Props.C06.initSlot'_q (S.msg t).initGeneric (S.msg t).fields[j]
+              (by rw [← Pbc.Props.C01.getD_fields _ j hj]; exact hlabj)
+            rw [hv0]; rfl
           intro hokA hnb sm hsm i hfi hlab hpk
           have hnone : firstBad = none := by cases firstBad <;> simp_all
           have hilt := ((hok.2 sm hsm).fsome i hfi).1
@@ -1298,9 +1860,12 @@ theorem unpack_then_free_clean (S : Schema) (σ : Nat → Bool) (t : Nat) (hfl :
   simp only [append_nil] at this
   exact ⟨this, balanced_of_acct (acct_freeMsg S m (by simpa using this))⟩
 
-/-! non-vacuity: a message with a required string, an optional bytes with default, a repeated packed int32, an implicit
-    double and an optional int32 meets the hypotheses -/
-def exFlat : Schema := [{ name := "F", initGeneric := false, nGroups := 0, fields := [
+/-! non-vacuity: a message with a oneof (string, bytes, uint32), a required string, an optional bytes with default, a
+    repeated packed int32, an implicit double and an optional int32 meets the hypotheses -/
+def exFlat : Schema := [{ name := "F", initGeneric := false, nGroups := 1, fields := [
+  { name := "o1", id := 5, label := .optional, type := .string, packed := false, group := some 0, sub := 0, dflt := .none, init := none },
+  { name := "o2", id := 6, label := .optional, type := .bytes, packed := false, group := some 0, sub := 0, dflt := .none, init := none },
+  { name := "o3", id := 7, label := .optional, type := .uint32, packed := false, group := some 0, sub := 0, dflt := .none, init := none },
   { name := "s", id := 1, label := .required, type := .string, packed := false, group := none, sub := 0, dflt := .none, init := none },
   { name := "b", id := 2, label := .optional, type := .bytes, packed := false, group := none, sub := 0, dflt := .bin [1, 0], init := none },
   { name := "r", id := 3, label := .repeated, type := .int32, packed := true, group := none, sub := 0, dflt := .none, init := none },
@@ -1308,6 +1873,6 @@ def exFlat : Schema := [{ name := "F", initGeneric := false, nGroups := 0, field
   { name := "x", id := 9, label := .optional, type := .int32, packed := false, group := none, sub := 0, dflt := .scalar 7, init := some 7 }] }]
 
 example : FlatS (exFlat.msg 0).fields ∧ Pbc.Props.C01.IdsDistinct (exFlat.msg 0).fields :=
-  ⟨⟨by decide, by decide⟩, by unfold Pbc.Props.C01.IdsDistinct; decide⟩
+  ⟨⟨by decide, by decide, by decide, by unfold Pbc.Props.C01.IdsDistinct; decide⟩, by unfold Pbc.Props.C01.IdsDistinct; decide⟩
 
 end Pbc.Props.C07
